@@ -51,6 +51,7 @@ type SolveOpts struct {
 	Dir         string // scratch directory for query files
 	RequireTwo  bool   // thorough: every obligation must be unsat on two back ends
 	KeepQueries bool
+	MaxRetry    int
 }
 
 func runSolver(ctx context.Context, s solverSpec, file string, timeoutMs int) (answer string, out string) {
@@ -87,6 +88,9 @@ func Discharge(obls []*Obligation, opts SolveOpts) []*Outcome {
 	if opts.TimeoutMs <= 0 {
 		opts.TimeoutMs = 5000
 	}
+	if opts.MaxRetry == 0 {
+		opts.MaxRetry = 10
+	}
 	os.MkdirAll(opts.Dir, 0o755)
 	outs := make([]*Outcome, len(obls))
 	sem := make(chan struct{}, opts.Parallel)
@@ -101,6 +105,25 @@ func Discharge(obls []*Obligation, opts SolveOpts) []*Outcome {
 		}(i, o)
 	}
 	wg.Wait()
+	// Second chance, sequentially and with a longer budget, for obligations that did not discharge:
+	// a loaded machine must not turn a provable obligation into an alarm. (Refutations with a model
+	// and vacuity canaries are final.)
+	retried := 0
+	for i, o := range outs {
+		if o.Result == "proved" || o.Result == "refuted" || o.Obl.MustFail || retried >= opts.MaxRetry {
+			continue
+		}
+		retried++
+		ropts := opts
+		ropts.TimeoutMs = opts.TimeoutMs * 4
+		if o.File != "" {
+			os.Remove(o.File)
+		}
+		r := dischargeOne(i, o.Obl, ropts)
+		r.Ms += o.Ms
+		r.Per["retry"] = "yes"
+		outs[i] = r
+	}
 	return outs
 }
 
